@@ -161,4 +161,39 @@ theorem verilog_library_sim (hok : VOK cfg tl ports stmts) (lib : Lib) (hcl : Li
       have hlt := (wf_in (net := verilogNet cfg tl ports stmts) (toNet_wf _ _) q1 (inPin_some hp)).1
       simp only [Option.map_some, hl l hlt]
 
+/-! ## the driver's acceptance check -/
+
+theorem vModelLibB_sound (isLib : String → Bool) (row : String → Cell) (a : Nat → Bool) (tab : List (String × Bool))
+    (h : vModelLibB isLib row tl ports stmts a tab = true) : VModelLib isLib row tl ports stmts a (vEnvOf false tab) := by
+  unfold vModelLibB at h
+  simp only [Bool.and_eq_true, List.all_eq_true, beq_iff_eq, Bool.or_eq_true, Bool.not_eq_true'] at h
+  obtain ⟨⟨⟨h1, h2⟩, h3⟩, h4⟩ := h
+  refine ⟨⟨fun i hi hH o ho => ?_, fun n hn => h2 n hn, fun ts hts => h3 ts hts, fun s hs => ?_⟩, fun i hi hlib => ?_⟩
+  · have := (h1 i hi).2 o ho
+    rw [this]
+    unfold instValLib
+    have hf : isLib i.ty = false := by simpa using hH
+    simp [hf]
+  · unfold vEnvOf lookupA
+    cases hf : tab.find? (fun p => p.1 == s) with
+    | none => rfl
+    | some p =>
+      exfalso
+      have g1 := List.mem_of_find?_eq_some hf
+      have g2 : p.1 = s := by simpa using List.find?_some hf
+      have g3 := h4 p g1
+      rw [g2, hs] at g3
+      cases g3
+  · obtain ⟨hA, hB⟩ := h1 i hi
+    rcases hA with hA | hA
+    · rw [hlib] at hA; cases hA
+    · cases hc : cellFuns row i.ty with
+      | none => rw [hc] at hA; cases hA
+      | some fs =>
+        refine ⟨fs, rfl, fun o ho f hf => ?_⟩
+        have := hB o ho
+        rw [this]
+        unfold instValLib
+        simp only [hlib, if_true, hc, hf]
+
 end KV.Netlist
